@@ -451,6 +451,19 @@ impl C03Scen {
                 let id = cands[w.ch.choose("c03.garbage.pick", cands.len() as u32) as usize];
                 let d = w.dgrams[id as usize].clone();
                 let mut b = d.bytes.clone();
+                // keep the cleartext header of the first packet, replace everything behind it
+                // (ciphertext, which is randomised by TLS) with harness-chosen bytes: none of it
+                // can authenticate anyway, and the world stays exactly replayable
+                let keep = match wire::public_header(&b, w.nodes[self.b.server as usize].cid_len) {
+                    Ok(wire::PublicHeader::Long { pn_offset, .. }) => pn_offset.min(b.len()),
+                    Ok(wire::PublicHeader::Short { .. }) => (1 + w.nodes[self.b.server as usize].cid_len).min(b.len()),
+                    _ => b.len().min(7),
+                };
+                let mut fill = vec![0u8; b.len() - keep];
+                w.ch.bytes("c03.garbage.fill", &mut fill);
+                b[keep..].copy_from_slice(&fill);
+                // (header protection covers the low bits of the first byte: make them ours as well)
+                b[0] = (b[0] & 0xf0) | (w.ch.choose("c03.garbage.lowbits", 16) as u8);
                 let n = 1 + w.ch.range_log("c03.garbage.nmut", 0, 6);
                 for _ in 0..n {
                     if b.is_empty() {
@@ -473,7 +486,14 @@ impl C03Scen {
                             // splice another genuine datagram behind (coalescing garbage)
                             let id2 = cands[w.ch.choose("c03.garbage.pick2", cands.len() as u32) as usize];
                             let o = w.dgrams[id2 as usize].bytes.clone();
-                            b.extend_from_slice(&o);
+                            let k2 = match wire::public_header(&o, w.nodes[self.b.server as usize].cid_len) {
+                                Ok(wire::PublicHeader::Long { pn_offset, .. }) => pn_offset.min(o.len()),
+                                _ => (1 + w.nodes[self.b.server as usize].cid_len).min(o.len()),
+                            };
+                            b.extend_from_slice(&o[..k2]);
+                            let mut tail = vec![0u8; o.len() - k2];
+                            w.ch.bytes("c03.garbage.fill2", &mut tail);
+                            b.extend_from_slice(&tail);
                         }
                     }
                 }
@@ -516,6 +536,8 @@ impl C03Scen {
                     let keep = 1 + w.nodes[self.b.server as usize].cid_len;
                     let len = *w.ch.pick("c03.short.len", &[60usize, keep, keep + 1, keep + 4, keep + 20, 1200]);
                     b.truncate(keep.min(b.len()));
+                    // (the low bits of a genuine first byte are header-protected, i.e. random)
+                    b[0] = 0x40 | (w.ch.choose("c03.short.first", 64) as u8);
                     while b.len() < len {
                         b.push((b.len() * 7 % 256) as u8);
                     }
